@@ -23,17 +23,19 @@ theorem readChunks_eq_slice (img : Bytes) (off : Nat) (cs : List Nat) :
 /-- The ordinary read announces exactly the number of bytes in `[off, min(off+limit, size))`
     and then sends exactly those bytes; the connection stays open. -/
 theorem readFile_exact (cfg : Cfg) (w : World) (st : State) (ino : Nat) (f : Inode)
-    (hro : st.ro = some (.plain ino)) (hf : w.inode? ino = some f) (limit off : Nat) (hoff : off ≤ osSeekMax) :
+    (hro : st.ro = some (.plain ino)) (hf : w.inode? ino = some f) (limit off : Nat) (hoff : off ≤ osSeekMax)
+    (hl : limit < 2 ^ 31) :
     step cfg w st (.readFile limit off) =
       (w, st, ⟨readFileResultHdr (min limit (f.content.size - off)) ++ f.content.read off limit, false⟩) := by
   have hlen := Content.read_length f.content off limit
   have h63 : off < 2 ^ 63 := by unfold osSeekMax at hoff; omega
+  have hcap : min limit maxAnnounce = limit := by unfold maxAnnounce; omega
   by_cases hend : f.content.size ≤ off
   · -- at or after the end: the empty answer, which is what the rule says as well
     have h0 : f.content.read off limit = [] := List.eq_nil_of_length_eq_zero (by rw [hlen]; omega)
     have hm : min limit (f.content.size - off) = 0 := by omega
     simp [step, hro, hf, roSize, RO.isDir, hend, h0, hm]
-  · simp [step, hro, hf, roSize, roSeekOk, roRead, RO.isDir, hlen, Nat.not_le.mpr h63, hoff, hend]
+  · simp [step, hro, hf, roSize, roSeekOk, roRead, RO.isDir, hlen, Nat.not_le.mpr h63, hoff, hend, hcap]
 
 /-- **Served bytes are stored bytes**: what a read of `(off, limit)` delivers is the slice
     `[off, min(off+limit, size))` of the file's one fixed content — for every size, offset and limit. -/
@@ -61,12 +63,21 @@ theorem readCrit_exact (cfg : Cfg) (w : World) (st : State) (ino : Nat) (f : Ino
 /-- Reads through a generated image or a decrypting view obey the same rule with the view's bytes. -/
 theorem readFile_view (cfg : Cfg) (w : World) (st : State) (v : StaticView)
     (hro : st.ro = some (.static v)) (limit off : Nat) (hoff : off < 2 ^ 63) (hseek : v.seekOk off = true)
-    (hend : v.size ≤ off → v.read off limit = []) :
+    (hend : v.size ≤ off → v.read off limit = []) (hl : limit < 2 ^ 31) :
     step cfg w st (.readFile limit off) =
       (w, st, ⟨readFileResultHdr (v.read off limit).length ++ v.read off limit, false⟩) := by
+  have hcap : min limit maxAnnounce = limit := by unfold maxAnnounce; omega
   by_cases he : v.size ≤ off
   · simp [step, hro, roSize, RO.isDir, he, hend he]
-  · simp [step, hro, roSize, roSeekOk, roRead, RO.isDir, hseek, Nat.not_le.mpr hoff, he]
+  · simp [step, hro, roSize, roSeekOk, roRead, RO.isDir, hseek, Nat.not_le.mpr hoff, he, hcap]
+
+/-- A request for 2 GiB or more (outside what the 32-bit answer can announce) is served as a request
+    for 2^31−1 bytes: still announced-then-sent, never a negative count. -/
+theorem readFile_capped (cfg : Cfg) (w : World) (st : State) (limit off : Nat) (hl : limit ≥ 2 ^ 31) :
+    step cfg w st (.readFile limit off) = step cfg w st (.readFile (2 ^ 31 - 1) off) := by
+  have h1 : min limit maxAnnounce = maxAnnounce := by unfold maxAnnounce; omega
+  have h2 : min (2 ^ 31 - 1) maxAnnounce = maxAnnounce := by unfold maxAnnounce; omega
+  simp only [step, h1, h2]
 
 /-- **At or after the end every kind of object answers the empty read** — plain file, generated image,
     decrypting view — for every offset a client can send (also ≥ 2^63 or beyond what the filesystem
@@ -76,16 +87,17 @@ theorem readFile_beyond_end (cfg : Cfg) (w : World) (st : State) (ro : RO) (hro 
     step cfg w st (.readFile limit off) = (w, st, ⟨readFileResultHdr 0, false⟩) := by
   simp [step, hro, hd, hoff]
 
-/-- Without an open file, or for an offset the object cannot be positioned at, nothing is sent and
-    the connection ends: the client never receives unannounced data. -/
-theorem read_without_file_closes (cfg : Cfg) (w : World) (st : State) (hro : st.ro = none) (limit off : Nat) :
-    (step cfg w st (.readFile limit off)).2.2 = ⟨[], true⟩ ∧
+/-- Without an open file the ordinary read is answered with −1 (the connection goes on) and the
+    critical read, which has no way to say so, ends the connection: the client never receives
+    unannounced data. -/
+theorem read_without_file (cfg : Cfg) (w : World) (st : State) (hro : st.ro = none) (limit off : Nat) :
+    (step cfg w st (.readFile limit off)).2.2 = ⟨readFileResultHdr (neg1 4), false⟩ ∧
     (step cfg w st (.readFileCritical limit off)).2.2 = ⟨[], true⟩ := by
   simp [step, hro]
 
 /-- Announced size and modification time are the file's. -/
 theorem open_announces (cfg : Cfg) (w : World) (st : State) (raw : Bytes) (ino : Nat) (f : Inode)
-    (hname : (PathStr.cleanRequest raw).getLast? ≠ some closeFileName)
+    (hname : PathStr.cleanRequest raw ≠ [closeFileName])
     (hopen : openRO cfg w (PathStr.cleanRequest raw) = some (.plain ino)) (hf : w.inode? ino = some f) :
     (step cfg w st (.openFile raw)).2.2 = ⟨openFileResult (some (f.content.size, f.mtime)), false⟩ := by
   simp [step, hname, hopen, hf, roSize]
